@@ -44,7 +44,9 @@ MIN_COUNTERS = {
               'sync_blocks_checked': 150, 'sync_points_observed': 150,
               'exit_fault_blocks_checked': 200, 'literal_int_targets': 300,
               'blocks_held_open_checked': 15, 'alive_ticks_inside_open_blocks': 15,
-              'clumped_blocks_checked': 5,
+              'clumped_blocks_checked': 5, 'stream_cases_checked': 40,
+              'stream_cases_with_chunks_inside_block': 15,
+              'stream_cases_with_chunks_outside_block': 15,
               'oracle_selftests': 1},
     'thorough': {'ops_compared': 1_500_000, 'messages_grammar_checked': 1_500_000,
                  'id_mentions_checked': 1_500_000, 'ledger_checks': 1_500_000,
@@ -53,7 +55,9 @@ MIN_COUNTERS = {
                  'sync_blocks_checked': 3000, 'sync_points_observed': 3000,
                  'exit_fault_blocks_checked': 5000, 'literal_int_targets': 5000,
                  'blocks_held_open_checked': 300, 'alive_ticks_inside_open_blocks': 300,
-                 'clumped_blocks_checked': 100,
+                 'clumped_blocks_checked': 100, 'stream_cases_checked': 1000,
+                 'stream_cases_with_chunks_inside_block': 400,
+                 'stream_cases_with_chunks_outside_block': 400,
                  'oracle_selftests': 1},
 }
 
@@ -88,6 +92,12 @@ def plan(tier, seed):
         shards.append({'name': f'rtalive{p}', 'mode': 'rt', 'kind': 'rtalive',
                        'first_case': f, 'n': k, 'secs': min(secs, 32 if quick else secs),
                        'hard_timeout': secs + 120})
+    # streaming routines overlapping bind() blocks (~0.3 s each)
+    n = 160 if quick else 6000
+    for p, (f, k) in enumerate(split(n, 2 if quick else 3)):
+        shards.append({'name': f'rtstream{p}', 'mode': 'rt', 'kind': 'rtstream',
+                       'first_case': f, 'n': k, 'secs': min(secs, 32 if quick else secs),
+                       'hard_timeout': secs + 120})
     # blocks larger than one datagram
     n = 60 if quick else 3000
     for p, (f, k) in enumerate(split(n, 2 if quick else 3)):
@@ -117,7 +127,7 @@ def run_shard(spec, acc):
     m.Buffer, m.ControlBus, m.AudioBus = buffer.Buffer, bus.ControlBus, bus.AudioBus
 
     kind = spec['shard']['kind']
-    mode = 'rt' if kind in ('rt', 'rtsync', 'rtalive', 'rtbig') else 'nrt'
+    mode = 'rt' if kind in ('rt', 'rtsync', 'rtalive', 'rtbig', 'rtstream') else 'nrt'
     multi = kind == 'multi'
     if multi:
         server = Server('vf17', NetAddr('127.0.0.1', 57917), ServerOptions())
@@ -132,6 +142,9 @@ def run_shard(spec, acc):
 
     if kind == 'rtsync':
         run_sync_shard(spec, acc, m, main, server, cap, ledger)
+        return
+    if kind == 'rtstream':
+        run_stream_shard(spec, acc, m, main, server, cap)
         return
     ticks = []
     if kind == 'rtalive':
@@ -305,3 +318,39 @@ def start_alive(acc, server, cap):
     time.sleep(0.3)
     acc.count('alive_routine_started')
     return True
+
+
+def run_stream_shard(spec, acc, m, main, server, cap):
+    from vf import osc, c17_gen, c17_exec
+    from sc3.base import clock as clk
+    from sc3.base.stream import Routine
+    m.Routine = Routine
+    clocks = {'system': clk.SystemClock, 'app': clk.AppClock}
+    plain_addr = server.addr
+    timeouts = cases = 0
+    for i in iter_cases(spec):
+        rng = case_rng(spec['seed'], 'C17', 'rtstream', i)
+        case = c17_gen.gen_stream_case(rng)
+        if server.addr is not plain_addr:
+            server._addr = plain_addr
+            acc.count('server_addr_repaired_between_cases')
+        with main._main_lock:
+            server._set_client_id(0)
+        cases += 1
+        try:
+            r = c17_exec.run_stream_case(m, server, cap, case, clocks, acc.count)
+            if r == 'timeout':
+                timeouts += 1
+                acc.count('stream_cases_timed_out')
+        except c17_exec.Violation as v:
+            w = dict(v.witness)
+            w.update({'case': i, 'kind': 'rtstream', 'stream': case})
+            acc.violation(v.key, w)
+        except osc.OscError as e:
+            acc.violation('C17/wire/packet-is-not-valid-osc', {'case': i, 'why': str(e)})
+        acc.case(h64(repr(case)), nontrivial=case['form'] != 'no-block')
+        acc.count('histories')
+        if acc.want_sample() and case['form'] != 'no-block':
+            acc.sample({'case': i, 'kind': 'rtstream', 'stream': case})
+    if cases and timeouts > max(3, cases // 20):
+        acc.mark_inconclusive(f'{timeouts}/{cases} streams never finished')
